@@ -1385,6 +1385,10 @@ class SimKernel:
             d = p.fds.get(node["fd"])
             if d is None:
                 raise self._err(errno.ENOENT, path)
+            if d.get("readlink_err"):
+                # a target deeper than PATH_MAX (ENAMETOOLONG, psutil issue
+                # 1940) or a link the kernel refuses to resolve (EINVAL)
+                raise self._err(d["readlink_err"], path)
             return self.fd_target(d)
         if self._denied(p):
             raise self._err(errno.EACCES, path)
